@@ -151,6 +151,67 @@ def shard(binpath, seed, sh, plans):
     return res
 
 
+def history_shard(binpath, seed, sh):
+    """verification histories in ONE process: a verification that fails (or succeeds), then real time passes, then a
+    layout that expired in the meantime is verified.  Whatever happened before, the later call must see the later clock."""
+    rng = common.rng_for(seed, PROP, 7000 + sh)
+    W = scen.World(binpath)
+    res = common.Result()
+    first_kinds = ["bad_signature", "expired_long_ago", "missing_link", "success", "unparseable_link"]
+    reqs, plans = [], []
+    now = datetime.datetime.now(UTC)
+    for i, fk in enumerate(first_kinds):
+        # first verification
+        a = pipeline.make_node(rng, W, 0, ["ed0"], expires="2001-01-01T00:00:00Z" if fk == "expired_long_ago" else None)
+        # second verification: expires shortly after generation, verified only after that instant has passed
+        T = (now + datetime.timedelta(seconds=4 + i)).replace(microsecond=0)
+        level = rng.choice(["top", "sub"])
+        if level == "top":
+            b = pipeline.make_node(rng, W, 0, ["ed0"], expires=scen.iso(T))
+        else:
+            b = pipeline.make_node(rng, W, 1, ["ed0"], nsteps=2, delegate_prob=1.0)
+            b["steps"][0]["evidence"][0]["node"]["layout"]["expires"] = scen.iso(T)
+        pipeline.collect_requests(a, reqs)
+        pipeline.collect_requests(b, reqs)
+        plans.append((fk, a, b, T, level))
+    wires = scen.sign_all(binpath, reqs, nproc=1)
+    cases = []
+    for fk, a, b, T, level in plans:
+        fa = pipeline.tree_files(W, a, wires)
+        la = copy.deepcopy(wires[a["req"]])
+        if fk == "bad_signature":
+            la["signatures"][0]["sig"] = "00" * 64
+        elif fk == "missing_link":
+            fa = {}
+        elif fk == "unparseable_link":
+            fa = {k: "{not json" for k in fa}
+        cases.append(scen.verify_case(la, [[W.kid("ed0"), W.pub("ed0")]], fa,
+                                      meta={"level": "top", "text": la["signed"]["expires"], "instant_ns": "0", "notation_class": "Z", "frac": False,
+                                            "style": "T_Z", "delta_s": 0, "history": "first:" + fk}))
+        exp_ns = int(T.timestamp()) * 10 ** 9
+        c = scen.verify_case(wires[b["req"]], [[W.kid("ed0"), W.pub("ed0")]], pipeline.tree_files(W, b, wires),
+                             meta={"level": level, "text": scen.iso(T), "instant_ns": str(exp_ns), "notation_class": "Z", "frac": False,
+                                   "style": "T_Z", "delta_s": 0, "history": "after:" + fk})
+        c["not_before_ns"] = str(exp_ns + 300_000_000)
+        cases.append(c)
+    obs = common.run_batch(binpath, cases)      # one process, in order
+    for c, o in zip(cases, obs):
+        m = c["meta"]
+        if m["history"].startswith("first:"):
+            if not scen.harness_failed(o):
+                want_ok = m["history"] == "first:success"
+                got_ok = o["runs"][0]["v"] == "ok"
+                res.classes[f"history_first:{'ok' if got_ok else 'err'}"] += 1
+                if want_ok != got_ok:
+                    res.inconclusive.append(f"history set-up call behaved unexpectedly ({m['history']}): {o['runs'][0]}")
+            continue
+        out = judge(c, o, res)
+        if out is None:
+            continue
+        res.note([m["history"], c["layout"][:80]], True, cls=[f"history:{m['history']}:{x}" for x in out] + [f"history_level:{m['level']}"])
+    return res
+
+
 def main(ctx):
     rng = ctx.rng(0)
     plans = []
@@ -172,12 +233,15 @@ def main(ctx):
     res = common.Result()
     for p in common.pmap(shard, [(ctx.bin, ctx.seed, s, plans[s::n]) for s in range(n)]):
         res.merge(p)
+    for p in common.pmap(history_shard, [(ctx.bin, ctx.seed, s) for s in range(4 if not ctx.thorough else n)]):
+        res.merge(p)
     res.extras["exhaustive_subspaces"] = [f"{len(OFFSETS)} offset notations x {{-1h,+1h,-40s,+40s}} x {{top-level, delegated}}"]
     res.extras["limit"] = ("verification time is the real clock; 'all verification times' is covered by sweeping the "
                            "expiry against it (the comparison is symmetric in the two instants)")
     req = ["top:expired", "top:unexpired_ok", "sub:expired", "sub:unexpired_ok", "notation:offset:expired",
            "notation:offset:unexpired_ok", "notation:zero-offset:expired", "notation:Z:expired", "notation:Z:unexpired_ok",
-           "fractional:expired", "fractional:unexpired_ok"]
+           "fractional:expired", "fractional:unexpired_ok", "history:after:bad_signature:expired", "history:after:success:expired",
+           "history:after:expired_long_ago:expired"]
     return common.finish(
         PROP, ctx.tier, ctx.seed, res, t0=ctx.t0,
         rule="valid scenarios with the top-level or a delegated layout's expiry at now+δ (δ from -100y to +100y, dense "
